@@ -3,6 +3,7 @@ package main
 
 import (
 	"go/token"
+	"go/types"
 
 	"golang.org/x/tools/go/ssa"
 )
@@ -92,6 +93,38 @@ func (g *Engine) registerStringIntrinsics() {
 			return e.callFunc(model, a, nil, pos)
 		}
 	}
+	// ---- recording stubs for DialURI (C17): TLS/DTLS wrappers, resolver, ticker ----
+	fieldByName := func(e *Exec, pv Value, name string, pos token.Pos) Value {
+		p := e.ptr(pv, pos)
+		st, ok := p.obj.typ.Underlying().(*types.Struct)
+		if !ok || len(p.path) != 0 {
+			e.unsupported("config pointer is not a whole struct object")
+		}
+		for i := 0; i < st.NumFields(); i++ {
+			if st.Field(i).Name() == name {
+				return getPath(p.obj.v, p.path).(StructV)[i]
+			}
+		}
+		e.unsupported("no field %s", name)
+		return nil
+	}
+	dummyPtr := func(e *Exec, fn *ssa.Function, idx int) Value {
+		res := fn.Signature.Results().At(idx).Type()
+		et := res.Underlying().(*types.Pointer).Elem()
+		return &Ptr{obj: e.newObj(e.zero(et), et, "dummy:"+res.String())}
+	}
+	I["crypto/tls.Client"] = func(e *Exec, fn *ssa.Function, a []Value, pos token.Pos) Value {
+		e.records["tls.ServerName"] = fieldByName(e, a[1], "ServerName", pos)
+		return dummyPtr(e, fn, 0)
+	}
+	I["github.com/pion/dtls/v3.Client"] = func(e *Exec, fn *ssa.Function, a []Value, pos token.Pos) Value {
+		e.records["dtls.ServerName"] = fieldByName(e, a[2], "ServerName", pos)
+		return Tuple{dummyPtr(e, fn, 0), Iface{}}
+	}
+	I["net.ResolveUDPAddr"] = func(e *Exec, fn *ssa.Function, a []Value, pos token.Pos) Value {
+		return Tuple{dummyPtr(e, fn, 0), Iface{}}
+	}
+	I["time.NewTicker"] = func(e *Exec, fn *ssa.Function, a []Value, pos token.Pos) Value { return dummyPtr(e, fn, 0) }
 	I["strconv.cloneString"] = func(e *Exec, fn *ssa.Function, a []Value, pos token.Pos) Value { return a[0] }
 	I["internal/stringslite.Clone"] = func(e *Exec, fn *ssa.Function, a []Value, pos token.Pos) Value { return a[0] }
 	I["strings.Clone"] = func(e *Exec, fn *ssa.Function, a []Value, pos token.Pos) Value { return a[0] }
